@@ -71,6 +71,35 @@ def new_parser():
     return TracesParser(by_id, SymMap(name='threads_pids'), SymMap(name='pids_names'))
 
 
+PRE_NAMES = ['prestateA', '', 'q']
+TABLES = ('threads_pids', 'pids_names', 'tids_names', 'global_strings')
+
+
+def havoc_tables(ctx, tag='pre', k=3):
+    """the four parser tables in an arbitrary pre-state (HavocMap): up to k distinct keys consulted per table, each bound
+    or not (free Boolean) to a free 32-bit pid / a representative string"""
+    from vxlib.symx import HavocMap
+    out = {}
+    for nm in TABLES:
+        slots = []
+        for i in range(k):
+            present = ctx.bool('%s_%s_p%d' % (tag, nm, i))
+            value = ctx.int('%s_%s_v%d' % (tag, nm, i), 32) if nm == 'threads_pids' else PRE_NAMES[i % 3]
+            slots.append((present, value))
+        out[nm] = HavocMap(slots, name=nm)
+    return out
+
+
+def parser_on(tables):
+    """a TracesParser over the given table objects (HavocMaps, SymMaps or real dicts)"""
+    from pykdebugparser.traces_parser import TracesParser
+    by_id, _ = codes()
+    p = TracesParser(by_id, tables['threads_pids'], tables['pids_names'])
+    p.tids_names = tables['tids_names']
+    p.global_strings = tables['global_strings']
+    return p
+
+
 # ------------------------------------------------------------------ template structure
 class CallShape:
     """name(p0, p1, ...)rest  over pieces (str | Atom)"""
@@ -207,22 +236,30 @@ class Outcome:
         self.pieces = pieces
 
 
-def run_window(ctx, name, a, r, lookups=(), tid=TID, ts0=100, code_name=None):
-    """START(a) [lookup records] END(r) of decoder `name` on one thread through the real pipeline"""
+def run_window(ctx, name, a, r, lookups=(), tid=TID, ts0=100, code_name=None, lost=(), nested=0):
+    """START(a) [lookup records] END(r) of decoder `name` on one thread through the real pipeline.
+    lost: word lists of earlier STARTs of the same code on the same thread whose END never arrives
+    nested: number of unrelated single records (a disk-I/O code, concrete words) the thread logs inside the window"""
     by_id, by_name = codes()
     eid = by_name[code_name or name]
     lid = by_name['VFS_LOOKUP']
+    before = [make_event(ts0 - len(lost) + i, w, tid, eid | K.DBG_FUNC_START) for i, w in enumerate(lost)]
     evs = [make_event(ts0, a, tid, eid | K.DBG_FUNC_START)]
     ts = ts0 + 1
     for i, (text, vnode) in enumerate(lookups):
         recs = lookup_records(ctx, 'l%d' % i, ts, tid, text, vnode, lid)
         evs += recs
         ts += len(recs)
+    if nested:
+        nid = by_name.get('P_RdData', 0x3020008)
+        for i in range(nested):
+            evs.append(make_event(ts, [13 + (i & 1), 777, i, 3], tid, nid))
+            ts += 1
     evs.append(make_event(ts + 1, r, tid, eid | K.DBG_FUNC_END))
     p = new_parser()
     out = []
     try:
-        for t in p.feed_generator(iter(evs)):
+        for t in p.feed_generator(iter(before + evs)):
             out.append(t)
         last = out[-1] if out else None
         if last is None or last.ktraces[0] is not evs[0]:
